@@ -899,6 +899,7 @@ rfbWriteExact(rfbClientPtr cl,
     while (len > 0) {
         if(sock == RFB_INVALID_SOCKET) {
             errno = EBADF;
+            UNLOCK(cl->outputMutex);
             return -1;
         }
 #ifdef LIBVNCSERVER_WITH_WEBSOCKETS
